@@ -668,8 +668,111 @@ namespace c15
       MeshOpt opt; opt.affine_only = D_::affine_only;
       opt.max_cells = c.thorough() ? 5000 : 200;
       if(maxn > 30) opt.max_cells = c.thorough() ? 600 : 64;           // very large local spaces: keep the work bounded
+      if(maxn > 30 && dim == 3 && !c.thorough()) opt.max_cells = 8;    // quick tier: 64-DOF hexahedra on tiny meshes only
       MeshInfo info;
       auto spec = gen_mesh<Shape_>(c, opt, info);
+      run_spec(c, spec, info);
+    }
+
+    // ---------------------------------------------------------------- family 'o3d': 3D pairs with face/edge DOFs on tiny meshes that are
+    // ALWAYS re-oriented and renumbered, so that every face / edge orientation code occurs.  j = per-pair case index.
+    //   j < #rotations : two cells sharing a face, cell 1 re-oriented by rotation j of the shape's rotation group
+    //                    (vm::symmetries), cell 0 by rotation (5j+3) mod #rotations  (deterministic edge corpus)
+    //   otherwise      : hexa_grid(2,1,1)/(2,2,1)/(2,2,2), tetra_grid(1,1,1)/(2,1,1), random re-orientation of every cell,
+    //                    random renumbering, optionally distorted / affine image
+    static void run_o3d(vh::Ctx& c, std::uint64_t j)
+    {
+      c.tag(std::string("space:") + D_::name());
+      c.tag(std::string("shape:") + vm::ShapeInfo<Shape_>::name());
+      MeshInfo info; vm::MeshSpec<Shape_> spec;
+      const auto& sy = vm::symmetries<Shape_>();
+      if(j < sy.size())
+      {
+        spec = two_cells();
+        const std::size_t g[2] = {std::size_t((5 * j + 3) % sy.size()), std::size_t(j)};
+        for(int k = 0; k < 2; ++k)
+        {
+          std::array<Index, 8> o = spec.cells[std::size_t(k)];
+          for(int v = 0; v < R::nv; ++v) spec.cells[std::size_t(k)][std::size_t(v)] = o[std::size_t(sy[g[k]][std::size_t(v)])];
+        }
+        spec.kind += "+rot" + std::to_string(g[0]) + "," + std::to_string(g[1]);
+        c.tag("mesh:two_cells_all_rotations"); c.tag("mesh:reoriented");
+        if(c.rng.coin()) { vm::permute_vertices(spec, c.rng); c.tag("mesh:renumbered"); }
+      }
+      else
+      {
+        Index a = 2, b = c.rng.coin() ? 2 : 1, d = 1;
+        if(R::simplex) { a = c.rng.coin() ? 2 : 1; b = 1; }
+        else if(b == 2 && maxn <= 30 && c.rng.coin(0.3)) d = 2;
+        spec = Base<Shape_>::grid(a, b, d, c.rng);
+        bool distort = c.rng.coin(0.3), affine = c.rng.coin(0.4);
+        if(distort && !R::simplex && d == 2) { vm::distort_interior(spec, c.rng, 0.5, 0.15); info.affine_cells = false; c.tag("mesh:distorted"); }
+        else distort = false;
+        if(affine) { vm::affine_map(spec, c.rng); c.tag("mesh:affine_image"); }
+        vm::permute_vertices(spec, c.rng); vm::permute_cells(spec, c.rng); vm::reorient_cells(spec, c.rng);
+        c.tag("mesh:tiny_grid"); c.tag("mesh:reoriented"); c.tag("mesh:renumbered");
+        if(affine || distort) info.axis_parallel = false;
+      }
+      c.tag(info.affine_cells ? "cells:affine" : "cells:non_affine");
+      c.tag(spec.num_cells() <= 2 ? "ncells:2" : "ncells:3-12");
+      run_spec(c, spec, info);
+    }
+    static vm::MeshSpec<Shape_> two_cells()
+    {
+      vh::Rng dummy(1);
+      if(!R::simplex) return Base<Shape_>::grid(2, 1, 1, dummy);
+      auto m = Base<Shape_>::grid(1, 1, 1, dummy);
+      // first pair of Kuhn simplices sharing a facet
+      for(Index a = 0; a < m.num_cells(); ++a) for(Index b = a + 1; b < m.num_cells(); ++b)
+      {
+        int shared = 0; for(int i = 0; i < R::nv; ++i) for(int k = 0; k < R::nv; ++k) if(m.cells[a][std::size_t(i)] == m.cells[b][std::size_t(k)]) ++shared;
+        if(shared == R::nv - 1)
+        {
+          vm::MeshSpec<Shape_> t; t.kind = "two_simplices";
+          std::map<Index, Index> ren;
+          for(Index cc : {a, b}) { std::array<Index, 8> nc2{}; for(int i = 0; i < R::nv; ++i) { Index v = m.cells[cc][std::size_t(i)]; if(!ren.count(v)) { Index n = Index(ren.size()); ren[v] = n; t.verts.push_back(m.verts[v]); } nc2[std::size_t(i)] = ren[v]; } t.cells.push_back(nc2); }
+          return t;
+        }
+      }
+      return m;
+    }
+
+    // harness-side orientation code of local face l of a cell relative to the mesh's vertex tuple of that face
+    // (frozen copies of the local face tables and of the congruency code convention: first two vertices decide)
+    static int face_code(const Index* cell_verts, int l, const Index* face_verts)
+    {
+      static const int hf[6][4] = {{0, 1, 2, 3}, {4, 5, 6, 7}, {0, 1, 4, 5}, {2, 3, 6, 7}, {0, 2, 4, 6}, {1, 3, 5, 7}};
+      static const int tf[4][3] = {{1, 2, 3}, {0, 2, 3}, {0, 1, 3}, {0, 1, 2}};
+      const Index s0 = cell_verts[R::simplex ? tf[l][0] : hf[l][0]], s1 = cell_verts[R::simplex ? tf[l][1] : hf[l][1]];
+      if(R::simplex)
+      {
+        static const int nx[3] = {1, 2, 0}, pv[3] = {2, 0, 1};
+        for(int i = 0; i < 3; ++i) if(s0 == face_verts[i]) { if(s1 == face_verts[nx[i]]) return i; if(s1 == face_verts[pv[i]]) return 4 + i; }
+        return -1;
+      }
+      // quad: (first, second) -> code ; rotation codes 0..3, reflection codes 4..7
+      static const int second_rot[4] = {1, 3, 0, 2}, second_ref[4] = {2, 0, 3, 1};
+      for(int i = 0; i < 4; ++i) if(s0 == face_verts[i]) { if(s1 == face_verts[second_rot[i]]) return i; if(s1 == face_verts[second_ref[i]]) return 4 + i; }
+      return -1;
+    }
+    template<typename Mesh_>
+    static void count_face_codes(vh::Ctx& c, const Mesh_& mesh, std::true_type)
+    {
+      const auto& fat = mesh.template get_index_set<3, 2>(); const auto& vaf = mesh.template get_index_set<2, 0>(); const auto& vac = mesh.template get_index_set<3, 0>();
+      std::vector<int> cnt(mesh.get_num_entities(2), 0);
+      for(Index k = 0; k < mesh.get_num_elements(); ++k) for(int l = 0; l < fat.get_num_indices(); ++l) ++cnt[fat(k, l)];
+      for(Index k = 0; k < mesh.get_num_elements(); ++k) for(int l = 0; l < fat.get_num_indices(); ++l)
+      {
+        const Index f = fat(k, l); if(cnt[f] != 2) continue;            // interior faces, both sides
+        Index cv[8], fv[4]; for(int i = 0; i < R::nv; ++i) cv[i] = vac(k, i); for(int i = 0; i < vaf.get_num_indices(); ++i) fv[i] = vaf(f, i);
+        const int code = face_code(cv, l, fv);
+        c.count(std::string(D_::name()) + "_" + vm::ShapeInfo<Shape_>::name() + "_face_code_" + std::to_string(code));
+      }
+    }
+    template<typename Mesh_> static void count_face_codes(vh::Ctx&, const Mesh_&, std::false_type) {}
+
+    static void run_spec(vh::Ctx& c, vm::MeshSpec<Shape_>& spec, const MeshInfo& info)
+    {
       const int fperm = feat_permute_choose(c);
       D_::extra_tags(c, spec);                                      // element-specific structural tags (known-findings matching)
       const std::string op = std::string("space.") + D_::name();
@@ -677,6 +780,7 @@ namespace c15
       c.desc = vh::J().raw("mesh", spec.describe()).kv("space", D_::name()).raw("tags", c.tags_json()).str();
       auto mesh = vm::build(spec);
       feat_permute(fperm, *mesh, spec);
+      count_face_codes(c, *mesh, std::integral_constant<bool, dim == 3>());
       TrafoType trafo(*mesh);
       SpaceType space(trafo);
       const Index nc = spec.num_cells();
@@ -733,6 +837,18 @@ namespace c15
     std::vector<const PairEntry*> sel;
     for(std::size_t i = 0; i < n; ++i) if(c.thorough() || p[i].quick) sel.push_back(&p[i]);
     sel[std::size_t(c.k % sel.size())]->fn(c);
+  }
+
+  // pairs of family 'o3d' are registered from the TUs that already instantiate them (no duplicate instantiation)
+  struct O3dEntry { const char* key; void (*fn)(vh::Ctx&, std::uint64_t); };
+  inline std::vector<O3dEntry>& o3d_registry() { static std::vector<O3dEntry> r; return r; }
+  struct RegO3d { RegO3d(const char* key, void (*fn)(vh::Ctx&, std::uint64_t)) { o3d_registry().push_back({key, fn}); } };
+  inline void run_o3d_family(vh::Ctx& c)
+  {
+    auto sel = o3d_registry();
+    std::sort(sel.begin(), sel.end(), [](const O3dEntry& x, const O3dEntry& y) { return std::strcmp(x.key, y.key) < 0; });
+    if(sel.empty()) { c.inconclusive("no o3d pairs registered"); return; }
+    sel[std::size_t(c.k % sel.size())].fn(c, c.k / sel.size());
   }
 
   // ------------------------------------------------------------------ descriptor base
